@@ -4,19 +4,62 @@ import json
 
 ALL = [f'C{n:02d}' for n in range(1, 21)]
 
+TECH = 'contract-based deductive verification: Python-AST -> z3 VCs (pyvc), sidecar contracts, fold normal form + fold induction; effect analysis for frame clauses'
+BASE = 'Trusted: pyvc (home-grown symbolic executor / VC generator / effect analysis), hand-encoded well-formedness axioms (pyvc/theory.py, asserted natively on every stand-in model), typing of list-valued / natural-valued spec functions, z3 5.1. '
 CLAIMED = {
-    'C03': dict(
-        category='proof',
-        text='Every query function of models/feature_model.py is put under a sidecar contract whose postcondition is taken from the '
-             'property (rel_class partition, rels/feats listings, feature-level predicates) and every obligation generated from the '
-             'current source is discharged by z3 for all well-formed heaps, unbounded in model size; the same contracts are executed '
-             'natively on the real code over all trees up to 4 features (bounded stand-in, not counted as proved).',
-        note='Trusted: pyvc (home-grown Python-AST symbolic executor / VC generator), the hand-encoded well-formedness axioms of '
-             'pyvc/theory.py (asserted natively on every stand-in model), z3 5.1; typing of list-valued spec functions (elements are objects); '
-             '"each element exactly once" rests on the tree axioms (unique owner slot per relation/feature).',
-        technique='contract-based deductive verification: Python-AST -> z3 VCs (pyvc), sidecar contracts, fold normal form',
-        design_ref='DESIGN.md section 4, C03'),
+    'C03': dict(category='proof', design_ref='DESIGN.md section 4 C03, section 9',
+        text='All 34 query functions of models/feature_model.py are under sidecar contracts whose postconditions come from the property (rel_class '
+             'partition, rels/feats listings, feature predicates, filtered listings, lookup by name) and every obligation generated from the current '
+             'source is discharged by z3 for all well-formed heaps, unbounded in size; purity of 40 queries by the effect analysis. Stand-in (bounded): '
+             'same contracts natively on all trees <= 4 features, special families, in-place edit histories.',
+        note=BASE + '"Each element exactly once" rests on the tree axioms (unique owner slot).'),
+    'C13': dict(category='other', design_ref='DESIGN.md section 4 C13, section 9',
+        text='Proved for all well-formed trees: count_configurations_rec(f) == N(f), the closed form written from the configuration semantics '
+             '(product over relations; mandatory/optional/alternative/or/mutex cases by fold induction), count_configurations and execute store it; '
+             'frame clauses. Bounded: the helper count_cardinality_group ([a..b] groups: list indexed by a symbolic range) is assumed by contract and '
+             'checked natively; the bridge N(root) == number of valid configurations and the upper bound with constraints are checked against brute force.',
+        note=BASE + 'Contract of count_cardinality_group assumed (bounded check). Counting bridge validated exhaustively to 4 (quick) / 6 (thorough) features.'),
+    'C14': dict(category='other', design_ref='DESIGN.md section 4 C14, section 9',
+        text='Decided deductively for all inputs: the operation never writes to its argument and keeps no state between executions (effect analysis). '
+             'The closure itself (work-list loop over two lists, bag reasoning) is outside the verifier: checked natively against the spec is_core and '
+             'against brute-force always-selected sets (bounded).',
+        note=BASE + 'Exactness / soundness / returned-once clauses are bounded only.'),
+    'C15': dict(category='other', design_ref='DESIGN.md section 4 C15, section 9',
+        text='Decided deductively for all inputs: frame (argument untouched, no state). The recursion mutates a set that is an element of the result '
+             'list (aliasing): outside the verifier; partition into mandatory chains and co-selection are checked natively against brute force (bounded).',
+        note=BASE + 'Partition / co-selection clauses are bounded only.'),
+    'C16': dict(category='other', design_ref='DESIGN.md section 4 C16, section 9',
+        text='Proved for all well-formed models: leaf listing and count, ancestors (loop invariant + variant), max depth (given a leaf exists), '
+             'average branching factor including the root-only case and division safety (fold-equality lemmas by induction), every execute stores the '
+             'helper value, frames of the six operations. variation_points (work-list loop over a dict keyed by objects) is bounded only.',
+        note=BASE + 'Assumed spec lemma: every well-formed tree has a leaf (validated natively). round() and float division uninterpreted (congruence).'),
+    'C18': dict(category='other', design_ref='DESIGN.md section 4 C18, section 9',
+        text='Proved for all well-formed constraint trees (algebraic datatype, truth-table semantics with an arbitrary assignment): requires/excludes '
+             'classification equals the documented forms, the extracted pair is logically equivalent (implies / not-both), simple = requires or excludes and '
+             'they are disjoint, single-feature report, split_formula preserves the conjunction, get_new_ctc_name is fresh, no exception (all definedness '
+             'obligations incl. unbound locals); the dependency chain simplify_formula / propagate_negation / to_cnf is verified from site-packages '
+             '(equivalence, normal forms, writes only to owned nodes). Bounded: split_constraint, kind predicates, get_features, pseudo/strict partition.',
+        note=BASE + 'Known finding C18_dep_simplify (dependency): XOR / EQUIVALENCE. Node writes use value semantics (alias effects checked by snapshot, bounded). Termination of to_cnf not proved.'),
+    'C19': dict(category='other', design_ref='DESIGN.md section 4 C19, section 9',
+        text='Decided deductively for all inputs by the effect analysis over every function the ten read-only operations reach: execute writes only fields '
+             'of the operation object, nothing reachable from the model, no process-wide state (caches), result fields are assigned not accumulated, '
+             'FMMetrics resets its report before delegating. Bounded: deep snapshots, sequences of 3 models on one object, random attribute generation '
+             '(7 domain shapes) against its postcondition.',
+        note=BASE + 'Reflection / dynamic dispatch in Metrics.execute resolved statically (listed). Unknown library calls assumed not to write their arguments. GenerateRandomAttribute is bounded only.'),
+    'C20': dict(category='other', design_ref='DESIGN.md section 4 C20, section 9',
+        text='Proved: Feature equality is name equality, reflexive, symmetric, consistent with hash and order; purity of all eq/hash/lt methods. Relation, '
+             'Constraint and FeatureModel equality (sorted(), frozenset, recursive str) are bounded: permuted rebuilt copies, all element pairs, every '
+             'single-point edit, hash-then-edit sequences, hostile names.',
+        note=BASE + 'hash() uninterpreted. Relation / Constraint / FeatureModel laws are bounded only.'),
+    'C12': dict(category='other', design_ref='DESIGN.md section 4 C12, section 9',
+        text='Decided deductively for all inputs by the effect analysis and call-site checks on the real source: each of the eight Writer.transform is pure '
+             '(writes nothing reachable from the writer / model, no process-wide state), reaches no order- or process-dependent primitive (set iteration, hash, '
+             'id, random, time, environment), returns the expression it wrote, every open()/FileStream names UTF-8. Bounded: snapshots, return == file bytes, '
+             'fresh interpreter processes under sampled PYTHONHASHSEED / LC_ALL / PYTHONUTF8, non-ASCII write/read.',
+        note=BASE + 'Library serialisers (json, ElementTree, minidom) assumed deterministic; frame of to_cnf taken from its proved contract.'),
 }
+for _k in CLAIMED:
+    CLAIMED[_k].setdefault('technique', TECH)
 
 NOT_YET = 'machinery for this property is not built yet in this round (see DESIGN.md section 7 staging); not claimed until a deductive clause is decided'
 
